@@ -40,24 +40,32 @@ impl Flow {
             name: name.to_string(),
             callstack: Rc::new(RefCell::new(CallStack::new(main_content_container.clone()))),
             output_stream: json_read::jarray_to_runtime_obj_list(
-                j_obj
-                    .get("outputStream")
-                    .ok_or(StoryError::BadJson("outputStream not found.".to_owned()))?
-                    .as_array()
-                    .unwrap(),
+                json_read::as_array(
+                    j_obj
+                        .get("outputStream")
+                        .ok_or(StoryError::BadJson("outputStream not found.".to_owned()))?,
+                    "outputStream",
+                )?,
                 false,
             )?,
             current_choices: json_read::jarray_to_runtime_obj_list(
-                j_obj
-                    .get("currentChoices")
-                    .ok_or(StoryError::BadJson("currentChoices not found.".to_owned()))?
-                    .as_array()
-                    .unwrap(),
+                json_read::as_array(
+                    j_obj
+                        .get("currentChoices")
+                        .ok_or(StoryError::BadJson("currentChoices not found.".to_owned()))?,
+                    "currentChoices",
+                )?,
                 false,
             )?
             .iter()
-            .map(|o| o.clone().into_any().downcast::<Choice>().unwrap())
-            .collect::<Vec<Rc<Choice>>>(),
+            .map(|o| {
+                o.clone().into_any().downcast::<Choice>().map_err(|_| {
+                    StoryError::BadJson(
+                        "currentChoices holds something that is not a choice".to_owned(),
+                    )
+                })
+            })
+            .collect::<Result<Vec<Rc<Choice>>, StoryError>>()?,
         };
 
         // The save format does not record whether a pending choice is an invisible
@@ -78,11 +86,12 @@ impl Flow {
 
         flow.callstack.borrow_mut().load_json(
             &main_content_container,
-            j_obj
-                .get("callstack")
-                .ok_or(StoryError::BadJson("loading callstack".to_owned()))?
-                .as_object()
-                .unwrap(),
+            json_read::as_object(
+                j_obj
+                    .get("callstack")
+                    .ok_or(StoryError::BadJson("loading callstack".to_owned()))?,
+                "callstack",
+            )?,
         )?;
         let j_choice_threads = j_obj.get("choiceThreads");
 
@@ -152,24 +161,34 @@ impl Flow {
         main_content_container: Rc<Container>,
     ) -> Result<(), StoryError> {
         for choice in self.current_choices.iter_mut() {
-            self.callstack
+            let found_thread = self
+                .callstack
                 .borrow()
                 .get_thread_with_index(*choice.original_thread_index.borrow())
-                .map(|o| choice.set_thread_at_generation(o.clone()))
-                .or_else(|| {
+                .cloned();
+
+            match found_thread {
+                Some(thread) => choice.set_thread_at_generation(thread),
+                None => {
                     let j_saved_choice_thread = j_choice_threads
                         .and_then(|c| c.get(choice.original_thread_index.borrow().to_string()))
-                        .ok_or("loading choice threads")
-                        .unwrap();
-                    choice.set_thread_at_generation(
-                        Thread::from_json(
-                            &main_content_container,
-                            j_saved_choice_thread.as_object().unwrap(),
-                        )
-                        .unwrap(),
-                    );
-                    Some(())
-                });
+                        .ok_or_else(|| {
+                            StoryError::BadJson(
+                                "The thread a saved choice was generated on is missing".to_owned(),
+                            )
+                        })?;
+                    let thread = Thread::from_json(
+                        &main_content_container,
+                        json_read::as_object(j_saved_choice_thread, "a choice thread")?,
+                    )?;
+                    if thread.callstack.is_empty() {
+                        return Err(StoryError::BadJson(
+                            "A saved choice thread needs at least one element".to_owned(),
+                        ));
+                    }
+                    choice.set_thread_at_generation(thread);
+                }
+            }
         }
 
         Ok(())
